@@ -124,8 +124,11 @@ def generate_answer(with_session: bool, with_proxy: bool, via_app: bool, kind: i
                 pi.proxy_host = b"proxy.realm"
                 pi.proxy_state = b"st"
                 req.proxy_info = [pi]
-        elif with_session:
-            req.session_id = "sess;1"           # plain attribute on a message without the typed field
+        else:
+            if with_session:
+                req.session_id = "sess;1"           # plain attribute on a message without the typed field
+            if with_proxy and k == 2:
+                req.proxy_info = [ProxyInfo()]      # an untyped request exposes a received Proxy-Info as an attribute, with or without Session-Id
         before = req.header.command_flags
         ans = app.generate_answer(req, result_code=2001) if via_app else n._generate_answer(c, req)
         h = ans.header
@@ -140,7 +143,7 @@ def generate_answer(with_session: bool, with_proxy: bool, via_app: bool, kind: i
     exp_wire = ([263] if (with_session and k != 1) else []) + [264, 296]
     if k == 2 and "c20_untyped_generated_answer_empty" in P.get("carve", ()):
         exp_wire = []                # known finding: only python attributes on the generic answer
-    exp = (B.NODE_HOST.encode(), B.REALM.encode(), exp_sid, bool(with_proxy and k == 0), hbh, 77, req.header.command_code, False, False, False, True, exp_wire)
+    exp = (B.NODE_HOST.encode(), B.REALM.encode(), exp_sid, bool(with_proxy and k in (0, 2)), hbh, 77, req.header.command_code, False, False, False, True, exp_wire)
     return hx.check(inputs, obs, exp, "generated answer: local Origin-Host/Realm, Session-Id and Proxy-Info copied (also as encoded), header mirrored, R/E/T cleared")
 
 
